@@ -416,7 +416,7 @@ fn run_op(op: &Op) {
 
 #[derive(Clone, Copy, PartialEq, Debug)]
 enum Status { Running, Parked(u32), Done }
-struct SchedState { free: bool, status: Vec<Status>, go: Vec<bool>, seen: BTreeSet<u32> }
+struct SchedState { free: bool, status: Vec<Status>, go: Vec<bool>, woke: Vec<bool>, seen: BTreeSet<u32> }
 struct Sched { m: Mutex<SchedState>, cv: Condvar }
 static SCHED: OnceLock<Sched> = OnceLock::new();
 
@@ -440,6 +440,7 @@ fn yield_cb(id: u32) {
         g = s.cv.wait(g).unwrap();
     }
     g.go[t] = false;
+    g.woke[t] = true;      // acknowledged: from here on a futex sleep of this thread is a lock wait, not this condvar
     g.status[t] = Status::Running;
 }
 
@@ -602,7 +603,7 @@ fn main() {
     ));
     let has_phase1 = progs.iter().any(|p| !p.is_empty());
     let _ = SCHED.set(Sched {
-        m: Mutex::new(SchedState { free: true, status: vec![Status::Running; nthreads], go: vec![false; nthreads], seen: BTreeSet::new() }),
+        m: Mutex::new(SchedState { free: true, status: vec![Status::Running; nthreads], go: vec![false; nthreads], woke: vec![true; nthreads], seen: BTreeSet::new() }),
         cv: Condvar::new(),
     });
     tracing_core::__verif::set_yield(Some(Box::new(yield_cb)));
@@ -647,9 +648,11 @@ fn main() {
             if now >= deadline { return None; }
             g = s.cv.wait_timeout(g, Duration::from_millis(5)).unwrap().0;
             if g.status[t] == Status::Running {
+                let woke = g.woke[t];
                 drop(g);
-                if in_futex_wait(t) { steady += 1 } else { steady = 0 }
-                if steady >= 12 { return Some(None); }
+                // only a thread that has acknowledged its release can be asleep on a LOCK (before that it sleeps on the scheduler's condvar)
+                if woke && in_futex_wait(t) { steady += 1 } else { steady = 0 }
+                if steady >= 20 { return Some(None); }
                 g = s.m.lock().unwrap();
             }
         }
@@ -690,6 +693,7 @@ fn main() {
         let release = |t: usize| {
             let mut g = s.m.lock().unwrap();
             g.status[t] = Status::Running;
+            g.woke[t] = false;
             g.go[t] = true;
             s.cv.notify_all();
         };
@@ -770,6 +774,7 @@ fn main() {
             {
                 let mut g = s.m.lock().unwrap();
                 g.status[t] = Status::Running;
+                g.woke[t] = false;
                 g.go[t] = true;
                 s.cv.notify_all();
             }
